@@ -30,7 +30,8 @@ package hashprefix
 //@   ensures ok == listedIn(s, hsVer[s], host)
 
 //@ pred hpItem(f *Filter, k int) = toptr(acval[f.resCache][k], cacheItem)
-//@ pred HPI(f *Filter) = cacheVer[f] <= hsVer[f.hashes] && (forall k int :: achas[f.resCache][k] ==> allocated(hpItem(f, k)) && itemVer[hpItem(f, k)] >= cacheVer[f])
+//@ pred okRes(r internal.Result) = r == nil || (isptr(r, internal.ResultModifiedRequest) && asptr(r, internal.ResultModifiedRequest) != nil) || (isptr(r, internal.ResultModifiedResponse) && asptr(r, internal.ResultModifiedResponse) != nil)
+//@ pred HPI(f *Filter) = cacheVer[f] <= hsVer[f.hashes] && (forall k int :: achas[f.resCache][k] ==> allocated(hpItem(f, k)) && itemVer[hpItem(f, k)] >= cacheVer[f] && okRes(hpItem(f, k).res))
 
 // Requests look the cache up and fill it under the read lock; a refresh clears
 // it under the write lock after the new hashes are in place.  Whenever the
@@ -51,12 +52,22 @@ package hashprefix
 //@   modifies heap
 //@   ensures err == nil ==> isptr(r, internal.ResultModifiedRequest) || isptr(r, internal.ResultModifiedResponse)
 //@   ensures err == nil ==> ref(r) != 0
-//@ func (*Filter).clonedResult
-//@   modifies heap
+// C07: a cached verdict and the verdict handed to a client never share a
+// message: the cache stores a clone, a hit returns a clone.
 //@ func (*internal.ResultModifiedRequest).Clone
 //@   modifies heap
+//@   ensures clone != nil && clone != m
 //@ func (*internal.ResultModifiedResponse).Clone
 //@   modifies heap
+//@   ensures clone != nil && clone != m
+//@ func (*internal.ResultModifiedResponse).CloneForReq
+//@   modifies heap
+//@   ensures clone != nil && clone != m
+//@ func (*Filter).clonedResult
+//@   property C07
+//@   requires f != nil && okRes(r)
+//@   modifies heap
+//@   ensures the-client-gets-its-own-copy: r == nil ? clone == nil : ref(clone) != 0 && ref(clone) != ref(r)
 
 //@ func (*Filter).itemFromCache
 //@   property C12
@@ -67,7 +78,8 @@ package hashprefix
 //@   ensures !ok ==> item == nil
 
 //@ func (*Filter).setInCache
-//@   property C12
+//@   property C12 C07
+//@   atcall Set assert the-cache-keeps-its-own-copy: ref(arg2.res) != 0 && ref(arg2.res) != ref(r)
 //@   held *
 //@   requires f != nil && ref(f.resCache) != 0 && HPI(f) && (isptr(r, internal.ResultModifiedRequest) || isptr(r, internal.ResultModifiedResponse)) && ref(r) != 0
 //@   modifies heap, achas[f.resCache], acval[f.resCache], itemVer
